@@ -18,6 +18,8 @@ HOSTILE_NAMES = [
     "a", "b", "c", "d e", "", "0", "1", "-1", "length", "é", "a'b", 'q"r', "x\\y", "\n", "\x00",
     "\x1f", "\x7f", "\U0001F600", "A", "ä", "*", "$", "@", "a.b", "true", "null", "_", "a1", "ab",
     " ", "／", "a/b", "\t", "ÿ", "퟿", "", "￿", "\U00010000", "\U0010ffff",
+    # a non-BMP character followed by more text, names ending in a backslash, runs of blanks inside a name, lone quotes
+    "\U0001F600x", "a\U0001F600b", "\\", "a\\", "x\\\\", "a  b", "'", '"', "\\'", '\\"',
 ]
 PLAIN_NAMES = ["a", "b", "c", "d", "ab", "_x", "a1", "é", "\U0001F600"]
 
@@ -27,7 +29,7 @@ BLANKS = [" ", "\t", "\n", "\r", "\r\n", "  ", " \n\t"]
 BLANK_TAG = {" ": "SP", "\t": "HT", "\n": "LF", "\r": "CR", "\r\n": "CRLF", "  ": "SPSP", " \n\t": "MIX"}
 
 LIT_POOL = [None, True, False, 0, 1, 2, -1, 10, 100, 1.5, -0.5, 0.0, 1.0, 2.5e10, "", "a", "b", "ab", "é",
-            "\U0001F600", "A", "a'b", 'q"r', "1", "true", "null", "\n"]
+            "\U0001F600", "A", "a'b", 'q"r', "1", "true", "null", "\n", "a\\", "\\", "\U0001F600x", "a  b"]
 
 MAX_SAFE = 2**53 - 1
 
